@@ -33,12 +33,15 @@ def main():
     C.assumptions += M.NATIVE_NOTES + [
         "the operand stack of a step is the one the dispatcher's earlier arms produced (each sub-expression leaves one value)",
         "a built-in method only sees a receiver of the type it is declared on",
-        "indices computed from opaque data are not decided; Rust-stack overflow on deeply nested values and panics inside "
+        "indices computed from opaque data are not decided (an index into an unmodelled collection is a panic candidate that "
+        "counts only when a generated program - including one that calls a stale enum constructor - crashes the binary); Rust-stack overflow on deeply nested values and panics inside "
         "opaquely modelled std/third-party calls are outside the claim",
         "panic candidates on over-approximated (tainted) paths count only if the generated program crashes the real binary",
     ]
     names = B.display_names(P, "BuiltInFunctionKind")
     nsp = B.namespace_paths(P, "BuiltInFunctionKind")
+    import rsx.interp as _ri
+    _ri.OPAQUE_INDEX_MAY_PANIC = True
     paths = S.walk_all(C, P, max_args=max_args)
     S.check_not_encodable(C, "C02")
     n_ok = 0
